@@ -2,7 +2,10 @@
 # observed windows judged by the gate acceptor (Models/Gate.v) inside Coq.
 # Histories include callers whose context is already over (at a free and at a full
 # gate), contexts that end at a chosen point of Render's own progress, and
-# cancellations that race a release.
+# cancellations that race a release.  Callers that ARRIVE TOGETHER (Render calls released by
+# one barrier at the same instant): as an action of any history, and - profile "together" - as
+# rounds repeated hundreds of times on one engine, with waiting callers cancelled while the gate
+# is still full.
 from common import *
 
 OUTCOMES = ["ok", "func_error", "panic"]
@@ -25,7 +28,29 @@ PROFILES = {
     "dead_full": (0.12, 0.45, 0.18, 0.08, 0.10, 0.07,  1.0),   # ... at a full gate, slots coming back now and then
     "race":      (0.36, 0.04, 0.06, 0.04, 0.46, 0.04,  1.0),   # cancellation racing a release, again and again
     "mixed":     (0.25, 0.25, 0.20, 0.08, 0.16, 0.06,  0.5),
+    "together":  (0.45, 0.05, 0.25, 0.15, 0.05, 0.05,  0.0),   # short history in front of the rounds
 }
+
+ROUNDS = {"quick": 160, "thorough": 300}     # rounds per case of the profile "together"
+TOGETHER_EVERY = {"quick": 12, "thorough": 36}
+PROCS = [0, 0, 8, 4, 2]                       # GOMAXPROCS of such a case (0: all processors)
+
+
+def shapes(rng, cap, total):
+    """1..3 kinds of round that take turns; together [total] rounds."""
+    n = rng.randint(1, 3)
+    res = []
+    for i in range(n):
+        pre = 0 if cap <= 1 or rng.random() < 0.5 else rng.randint(1, cap - 1)
+        free = cap - pre if cap > 0 else 0
+        k = min(8, free + rng.randint(1, 4)) if cap > 0 else rng.randint(2, 6)
+        allw = rng.random() < 0.5
+        res.append({"pre": pre, "k": k,
+                    "cancel": 0 if allw or cap == 0 else rng.randint(1, max(1, k - free)),
+                    "pick": rng.randrange(8),
+                    "outcome": rng.choice(["ok"] * 5 + ["func_error", "panic"]),
+                    "reps": total // n + (1 if i < total % n else 0)})
+    return res
 CONTEXT_PROFILES = ["dead_free", "dead_full", "race", "mixed"]
 
 
@@ -36,6 +61,7 @@ def history(rng, cap, maxlen, profile):
     taken modulo the sets the harness really observes."""
     w_live, w_dead, w_rel, w_canc, w_race, w_probe, p_burst = PROFILES[profile]
     biased = profile != "hostile"
+    p_volley = 0.5 if profile == "together" else 0.12
     n = rng.randint(10 if profile in CONTEXT_PROFILES else 3, maxlen)
     acts = []
     inside, waitq = 0, []
@@ -45,8 +71,20 @@ def history(rng, cap, maxlen, profile):
         d.update(kw)
         return d
 
+    def volley():
+        nonlocal inside
+        k = rng.randint(2, 4)
+        acts.append(base("volley", n=k))
+        for _ in range(k):
+            if cap == 0 or inside < cap:
+                inside += 1
+            else:
+                waitq.append("g")
+
     def start(dead):
         nonlocal inside
+        if not dead and rng.random() < p_volley:
+            return volley()
         missing = rng.random() < 0.2
         a = base("start", missing=missing)
         if dead:
@@ -172,14 +210,26 @@ class C09(Prop):
             "(context profiles: >= 10): "
             "start a render (template calling the blocking function gate(id), or a missing template) with a live "
             "context, with a context that is ALREADY over (cancelled before the call / deadline in the past) or with "
-            "a context that ends by itself at its k-th use (k in 1..5: Render uses its context 3 times up to the template call, so this is before, in and right after the select, or never); tell a "
+            "a context that ends by itself at its k-th use (k in 1..5: Render uses its context 3 times up to the template call, so this is before, in and right after the select, or never); "
+            "start 2..4 renders that ARRIVE TOGETHER (their goroutines wait on one barrier, spinning on a start flag, "
+            "and call Render at the same instant; 12% of the live starts, 6% of all actions); tell a "
             "render that is inside to return / fail in a template function / panic; cancel a waiting render's context; "
             "RACE: end a waiting render's context while a render inside is told to leave (both at once, or 0..150 us "
             "apart in either order; the waiter is the oldest one in 60%); probe; then drain and a refill probe with N "
-            "fresh renders that must all be inside together.  Profiles: 40% classic (bursts beyond the limit, releases "
-            "while others wait), 15% unbiased, 45% context profiles in equal parts - over-contexts at a gate with free "
+            "fresh renders that must all be inside together.  Profiles: 37% classic (bursts beyond the limit, releases "
+            "while others wait), 14% unbiased, 41% context profiles in equal parts - over-contexts at a gate with free "
             "slots alternating with releases, over-contexts at a full gate, race after race with the queue refilled, "
-            "mixed - so that a slot lost per such event exhausts the limit within one history.  The histories are "
+            "mixed - so that a slot lost per such event exhausts the limit within one history; 1/12 (8%) of the cases "
+            "'together': a short history, then ROUNDS on the same engine between drain and refill probe - 160 per case "
+            "(quick 25 cases = 4000 rounds; thorough 300 per case, 1/36 of the cases = 139 cases = 41700 rounds) of 1..3 kinds taking turns: p in 0..N-1 renders are put inside "
+            "(f = N-p free slots, 1 <= f <= N), k = f+1..f+4 (<= 8) callers arrive together so that f get in and the rest "
+            "waits, the contexts of all (50%) or of 1..k-f of the waiting ones are ended while the renders inside are "
+            "still held and each must come back with the context error within the bound (10 s) while the gate is still full, "
+            "then those inside leave (ok 5/7, failing template function 1/7, panic 1/7), the remaining waiters get in and "
+            "leave; limits 1,1,1,2,2,3,4 (8%: disabled, nobody may wait); such cases run one at a time with GOMAXPROCS "
+            "16,16,8,4,2 in turn; a round is judged as a history of its own (theorem C09_round_reset), identical round "
+            "records are judged once; a round in which a step does not finish within the bound ends the rounds of its case, "
+            "and after 5 such cases the later cases of the run drive no rounds (saves time on a broken tree).  The histories are "
             "biased by a counting model of a correct gate; non-trivial = some render was observed waiting, or the "
             "limit is disabled and >= 2 renders were inside together, or a context was over at an enabled gate; "
             "distinct by SHA-1 of the case")
@@ -198,11 +248,22 @@ class C09(Prop):
         "around a release lands before or after the hand-over of the slot, is not controlled: the race actions are "
         "repeated many times per run instead; the self-ending contexts make 'the context ends exactly after the slot "
         "was obtained' deterministic",
+        "callers that arrive together: the model interleaves (k Start events, then Enter events) - that Render calls "
+        "which overlap in time behave like some interleaving of their gate operations is Go's channel semantics, "
+        "assumed; how closely the calls really coincide (goroutines released by one store to a flag they spin on, "
+        "each then runs the few hundred instructions of Render in front of the gate) is not controlled or measured, "
+        "the rounds are repeated hundreds of times per case and under several GOMAXPROCS settings instead",
+        "rounds: the harness numbers the renders of every round from 1 and reports rounds with identical records once "
+        "(sorted by render number inside a window); the judge runs oracle and acceptor afresh per round.  For the "
+        "acceptor this is theorem C09_round_reset together with the check that a round ended with nobody inside and "
+        "nobody waiting; that re-numbering the renders is harmless is the shift in that theorem",
     ]
     assumptions = [
         "timing words are observed, never proved: a cancelled waiter, and any render whose context is over, must have "
-        "returned (or be inside) within 2 s ('promptly'); a render that may enter must be seen inside within 1 s "
-        "of the driver action, the final refill within 3 s; a machine stalled for longer than these bounds would "
+        "returned (or be inside) within 2 s ('promptly'); a render that may enter must be seen inside within 2 s "
+        "of the driver action, the final refill within 3 s; in the rounds every step, the return of a cancelled "
+        "waiter included, has 10 s (tens of thousands of steps per run; on this machine, when short of memory, single "
+        "threads were seen to stand still for more than 3 s); a machine stalled for longer than these bounds would "
         "produce a false alarm",
         "the Go scheduler eventually runs every runnable goroutine (fairness); which waiting render enters next is left "
         "to the runtime and not constrained by the model",
@@ -211,6 +272,9 @@ class C09(Prop):
         "a slot that is taken and never handed back is not visible at the call that loses it; it is observed through "
         "its consequences in the same history: a render waiting although fewer than N are inside, or the refill "
         "probe at the end not getting N renders inside",
+        "a fault that needs two Render calls to be at the gate within the same few instructions shows only in some of "
+        "the rounds (measured on such a fault: one round in 20..200 at limit 1 with 4 callers on 16 processors); the "
+        "4000 rounds of a quick run make a miss unlikely, they do not exclude it",
     ]
     not_yet_proved = []
 
@@ -220,6 +284,14 @@ class C09(Prop):
         for i in range(n):
             cap = i % 5
             x = rng.random()
+            if i % TOGETHER_EVERY[tier] == 7:
+                # callers that arrive together, round after round: 1/12 of the cases (thorough: 1/36, longer)
+                cap = rng.choice([1, 1, 1, 2, 2, 3, 4]) if rng.random() < 0.92 else 0
+                cases.append({"cap": cap, "via_inject": False, "init": 0, "profile": "together",
+                              "actions": history(rng, cap, 6, "together"),
+                              "shapes": shapes(rng, cap, ROUNDS[tier]),
+                              "procs": PROCS[(i // TOGETHER_EVERY[tier]) % len(PROCS)]})
+                continue
             if x < 0.40:
                 profile = "classic"
             elif x < 0.55:
@@ -238,8 +310,12 @@ class C09(Prop):
 
     # ---- observation -> Gallina
     def _tables(self, obs):
+        return self._tables_of(obs["windows"])
+
+    @staticmethod
+    def _tables_of(windows):
         commanded, cancels = {}, []
-        for w in obs["windows"]:
+        for w in windows:
             fin_ids = {f["rid"] for f in w["finished"]}
             if w["op"] == "start" and w["missing"]:
                 commanded[w["rids"][0]] = "not_found"
@@ -249,17 +325,17 @@ class C09(Prop):
                 commanded[w["rids"][1]] = w["outcome"]
             elif w["op"] == "drain":
                 for r in w["rids"]:
-                    commanded[r] = "ok"
+                    commanded[r] = w.get("outcome") or "ok"
             elif w["op"] in ("cancel", "drain_cancel"):
                 for r in w["rids"]:
                     cancels.append((r, r in fin_ids))
         return commanded, cancels
 
-    def emit(self, case, obs):
-        cap = case["cap"]
-        commanded, cancels = self._tables(obs)
+    def _history_terms(self, cap, windows):
+        """(wins, cancels, commanded) of one history - the case's own, or one round - as Gallina."""
+        commanded, cancels = self._tables_of(windows)
         wins, prev = [], set()
-        for w in obs["windows"]:
+        for w in windows:
             evs = window_events(cap, w, prev, commanded)
             prev = set(w["inside"])
             wins.append(b"{| w_events := " + cq_list(evs) +
@@ -269,14 +345,24 @@ class C09(Prop):
                         b"; w_waiting := " + cq_list([cq_nat(r) for r in w["waiting"]]) +
                         b"; w_returned := " + cq_list([cq_pair(cq_nat(f["rid"]), CQ_CLS.get(f["class"], b"c_other"))
                                                        for f in w["finished"]]) + b" |}")
+        return (cq_list(wins),
+                cq_list([cq_pair(cq_nat(r), cq_bool(p)) for r, p in cancels]),
+                cq_list([cq_pair(cq_nat(r), CQ_OUTCOME[o]) for r, o in sorted(commanded.items())]))
+
+    def emit(self, case, obs):
+        cap = case["cap"]
+        wins, cancels, commanded = self._history_terms(cap, obs["windows"])
+        rounds = []
+        for r in obs.get("rounds", []):       # the distinct rounds; how often each occurred does not matter to the judge
+            rw, rc, rm = self._history_terms(cap, r["windows"])
+            rounds.append(b"{| r_wins := " + rw + b"; r_cancels := " + rc + b"; r_commanded := " + rm + b" |}")
         return (b"{| cfg := " + cq_nat(cap) + b"; go_limit := " + cq_nat(max(0, min(obs["limit"], 4999))) +
-                b"; wins := " + cq_list(wins) +
-                b"; cancels := " + cq_list([cq_pair(cq_nat(r), cq_bool(p)) for r, p in cancels]) +
-                b"; commanded := " + cq_list([cq_pair(cq_nat(r), CQ_OUTCOME[o]) for r, o in sorted(commanded.items())]) +
-                b"; refill_ok := " + cq_bool(obs["refill_ok"]) + b" |}")
+                b"; wins := " + wins + b"; cancels := " + cancels + b"; commanded := " + commanded +
+                b"; refill_ok := " + cq_bool(obs["refill_ok"]) +
+                b"; rounds := " + cq_list(rounds) + b" |}")
 
     def nontrivial(self, case, obs):
-        ws = obs["windows"]
+        ws = obs["windows"] + [w for r in obs.get("rounds", []) for w in r["windows"]]
         if case["cap"] == 0:
             return any(len(w["inside"]) >= 2 for w in ws)
         return any(w["waiting"] or w["ended"] for w in ws)
@@ -287,6 +373,8 @@ class C09(Prop):
                 c = a.get("ctx", "")
                 return ("start-missing" if a["missing"] else "start") + \
                     ("" if not c else "[ctx %s%s]" % (c, (" %d" % a.get("k", 1)) if c == "at" else ""))
+            if a["op"] == "volley":
+                return "%d start together" % a.get("n", 2)
             if a["op"] == "release":
                 return "release#%d:%s" % (a["pick"], a["outcome"])
             if a["op"] == "cancel":
@@ -297,16 +385,32 @@ class C09(Prop):
                     ["at once", "release, %d us, cancel", "cancel, %d us, release"][a.get("order", 0) % 3]
                     % (() if a.get("order", 0) % 3 == 0 else (a.get("delay_us", 0),)))
             return a["op"]
-        return {"limit": case["cap"], "via_inject": case["via_inject"], "init": case["init"],
-                "profile": case.get("profile", ""),
-                "actions": [act(a) for a in case["actions"]],
-                "observed": ["%s%s%s%s -> returned %s inside %s waiting %s%s" % (
-                    w["op"], w["rids"], (":" + w["outcome"]) if w.get("outcome") else "",
-                    (" ctx=" + w["ctx"]) if w.get("ctx") else "",
-                    ["%d:%s" % (f["rid"], f["class"]) for f in w["finished"]], w["inside"], w["waiting"],
-                    (" context over: %s" % w["ended"]) if w["ended"] else "")
-                    for w in obs["windows"]],
-                "get_rate_limit": obs["limit"], "refill_ok": obs["refill_ok"]}
+        def seen(ws):
+            return ["%s%s%s%s -> returned %s inside %s waiting %s%s" % (
+                w["op"], w["rids"], (":" + w["outcome"]) if w.get("outcome") else "",
+                (" ctx=" + w["ctx"]) if w.get("ctx") else "",
+                ["%d:%s" % (f["rid"], f["class"]) for f in w["finished"]], w["inside"], w["waiting"],
+                (" context over: %s" % w["ended"]) if w["ended"] else "")
+                for w in ws]
+        d = {"limit": case["cap"], "via_inject": case["via_inject"], "init": case["init"],
+             "profile": case.get("profile", ""),
+             "actions": [act(a) for a in case["actions"]],
+             "observed": seen(obs["windows"]),
+             "get_rate_limit": obs["limit"], "refill_ok": obs["refill_ok"]}
+        if case.get("shapes"):
+            d["rounds"] = ["%d x (%d inside first, %d arrive together, %s of the waiting ones cancelled from #%d, "
+                           "those inside leave by %s)" % (sh["reps"], sh["pre"], sh["k"],
+                                                          "all" if sh["cancel"] <= 0 else str(sh["cancel"]),
+                                                          sh["pick"], sh["outcome"]) for sh in case["shapes"]]
+            d["gomaxprocs"] = obs.get("procs")
+            d["rounds_run"] = obs.get("rounds_run")
+            d["rounds_cut_short"] = obs.get("rounds_cut")
+            d["rounds_not_driven"] = obs.get("rounds_off")
+            rs = sorted(obs.get("rounds", []), key=lambda r: -r["count"])
+            d["rounds_distinct"] = len(rs)
+            d["rounds_observed_most_often"] = [{"count": r["count"], "first": r["first"], "shape": r["shape"],
+                                                "observed": seen(r["windows"])} for r in rs[:2]]
+        return d
 
     @staticmethod
     def _chance(case):
@@ -315,7 +419,35 @@ class C09(Prop):
         return sum(1 for a in case["actions"]
                    if a["op"] == "race" or (a["op"] == "start" and a.get("ctx") in ("cancelled", "expired")))
 
+    def _shrink_rounds(self, case):
+        """Rounds show a fault only now and then: a candidate never has fewer rounds than 600, so that
+        it shows again when the witness is run again.  One kind of round, nothing in front, then
+        simpler kinds."""
+        shs = case["shapes"]
+        total = max(600, sum(sh["reps"] for sh in shs))
+        plain = dict(case, actions=[], via_inject=False, init=0)
+        if len(shs) > 1 or case["actions"] or shs[0]["reps"] < total:
+            for sh in shs:
+                yield dict(plain, shapes=[dict(sh, reps=total)])
+            yield dict(case, actions=[])
+            return
+        sh = shs[0]
+        free = max(0, case["cap"] - sh["pre"])
+        for ch in ({"pre": 0, "k": sh["k"] + sh["pre"]} if sh["pre"] else None,
+                   {"outcome": "ok"} if sh["outcome"] != "ok" else None,
+                   {"cancel": 0, "pick": 0} if sh["cancel"] > 0 or sh["pick"] else None,
+                   {"k": sh["k"] - 1} if sh["k"] - 1 > free else None):
+            if ch:
+                yield dict(case, shapes=[dict(sh, **ch)])
+        if case.get("procs"):
+            yield dict(case, procs=0)
+
     def shrink(self, case):
+        if case.get("shapes"):
+            # first without the rounds at all (the fault may sit in the history in front of them)
+            yield {k: v for k, v in case.items() if k not in ("shapes", "procs")}
+            yield from self._shrink_rounds(case)
+            return
         # a witness that depends on the runtime's choice needs several attempts to show reliably:
         # candidates keep at least 6 such actions (or all, if there are fewer)
         keep = min(self._chance(case), 6)
@@ -341,6 +473,10 @@ class C09(Prop):
                 yield repl(dict(a, outcome="ok"))
             if a["op"] == "start" and a["missing"]:
                 yield repl(dict(a, missing=False))
+            if a["op"] == "volley":
+                if a.get("n", 2) > 2:
+                    yield repl(dict(a, n=a["n"] - 1))
+                yield repl({"op": "start", "missing": False, "pick": 0, "outcome": ""})
             if a["op"] == "start" and a.get("ctx"):
                 yield repl({k2: v for k2, v in a.items() if k2 not in ("ctx", "k")})
             if a["op"] == "race":
@@ -348,7 +484,8 @@ class C09(Prop):
                 yield repl({"op": "cancel", "missing": False, "pick": a["pick"], "outcome": ""})
 
     def model_expr(self):
-        return "(reach (cfg c) (flat_map w_events (wins c)), model_states (Some (gate_init (cfg c))) (wins c))"
+        return ("(reach (cfg c) (flat_map w_events (wins c)), model_states (Some (gate_init (cfg c))) (wins c), "
+                "map (fun r => (oracle1 (round_case c r), model_states (Some (gate_init (cfg c))) (r_wins r))) (rounds c))")
 
     def distribution(self, cases, obss):
         d = {"per_limit": {}, "per_profile": {}, "via_inject": 0, "actions": 0, "renders": 0,
@@ -358,7 +495,12 @@ class C09(Prop):
              "self_ending_contexts": 0, "self_ending_fired": 0,
              "races": 0, "race_waiter_got_error": 0, "race_waiter_took_slot": 0,
              "left_ok": 0, "left_not_found": 0, "left_func_error": 0, "left_panic": 0,
-             "max_waiting": 0, "windows": 0, "windows_not_settled": 0, "goroutines_left_blocked": 0}
+             "max_waiting": 0, "windows": 0, "windows_not_settled": 0, "goroutines_left_blocked": 0,
+             "arrivals_together_in_histories": 0,
+             "cases_with_rounds": 0, "rounds": 0, "rounds_distinct_records": 0, "rounds_cut_short": 0,
+             "rounds_per_gomaxprocs": {}, "round_callers_arrived_together": 0,
+             "round_callers_left_waiting": 0, "round_waiters_cancelled_at_full_gate": 0,
+             "round_cancelled_waiters_returned_in_time": 0, "round_windows_not_settled": 0}
         for c, o in zip(cases, obss):
             cap = c["cap"]
             d["per_limit"][str(cap)] = d["per_limit"].get(str(cap), 0) + 1
@@ -369,6 +511,27 @@ class C09(Prop):
             d["goroutines_left_blocked"] += o.get("leftover", 0)
             commanded, cancels = self._tables(o)
             d["cancelled_while_waiting"] += len(cancels)
+            if c.get("shapes"):
+                d["cases_with_rounds"] += 1
+                d["rounds"] += o.get("rounds_run", 0)
+                d["rounds_distinct_records"] += len(o.get("rounds", []))
+                d["rounds_cut_short"] += bool(o.get("rounds_cut"))
+                d["cases_rounds_not_driven"] = d.get("cases_rounds_not_driven", 0) + bool(o.get("rounds_off"))
+                k = str(o.get("procs"))
+                d["rounds_per_gomaxprocs"][k] = d["rounds_per_gomaxprocs"].get(k, 0) + o.get("rounds_run", 0)
+                for r in o.get("rounds", []):
+                    sh = c["shapes"][r["shape"]]
+                    d["round_callers_arrived_together"] += r["count"] * sh["k"]
+                    for i, w in enumerate(r["windows"]):
+                        d["round_windows_not_settled"] += r["count"] * (not w["settled"])
+                        if w["op"] == "start" and len(w["rids"]) == sh["k"] and \
+                                (i + 1 == len(r["windows"]) or r["windows"][i + 1]["op"] != "start"):
+                            d["round_callers_left_waiting"] += r["count"] * len(w["waiting"])
+                        if w["op"] == "cancel":
+                            fin = {f["rid"] for f in w["finished"] if f["class"] == "ctx_error"}
+                            d["round_waiters_cancelled_at_full_gate"] += r["count"] * len(w["rids"])
+                            d["round_cancelled_waiters_returned_in_time"] += \
+                                r["count"] * len([x for x in w["rids"] if x in fin])
             prev_inside = 0
             at = set()
             for w in o["windows"]:
@@ -378,6 +541,8 @@ class C09(Prop):
                 fin = {f["rid"]: f["class"] for f in w["finished"]}
                 if w["op"] in ("start", "refill"):
                     d["renders"] += len(w["rids"])
+                if w["op"] == "start" and len(w["rids"]) > 1:
+                    d["arrivals_together_in_histories"] += 1
                 if w["op"] == "start" and w.get("ctx") in ("cancelled", "expired"):
                     r = w["rids"][0]
                     d["started_with_context_over"] += 1
